@@ -1,0 +1,69 @@
+//! Read-only view of the terminal's hidden state for external verification
+//! harnesses. Compiled only with the `verif` cargo feature.
+
+use super::{BufferType, SavedCtx, Terminal};
+use crate::charset::Charset;
+use crate::pen::Pen;
+
+#[derive(Debug, Clone, PartialEq)]
+pub struct VerifSavedCtx {
+    pub cursor_col: usize,
+    pub cursor_row: usize,
+    pub pen: Pen,
+    pub origin_mode: bool,
+    pub auto_wrap_mode: bool,
+}
+
+#[derive(Debug, Clone, PartialEq)]
+pub struct VerifState {
+    pub alternate_active: bool,
+    pub pen: Pen,
+    pub charsets_drawing: [bool; 2],
+    pub active_charset: usize,
+    pub tabs: Vec<usize>,
+    pub insert_mode: bool,
+    pub origin_mode: bool,
+    pub auto_wrap_mode: bool,
+    pub new_line_mode: bool,
+    pub pending_wrap: bool,
+    pub top_margin: usize,
+    pub bottom_margin: usize,
+    /// saved context of the screen that is showing
+    pub saved_ctx: VerifSavedCtx,
+    /// saved context of the other screen
+    pub other_saved_ctx: VerifSavedCtx,
+}
+
+fn ctx(c: &SavedCtx) -> VerifSavedCtx {
+    VerifSavedCtx {
+        cursor_col: c.cursor_col,
+        cursor_row: c.cursor_row,
+        pen: c.pen,
+        origin_mode: c.origin_mode,
+        auto_wrap_mode: c.auto_wrap_mode,
+    }
+}
+
+impl Terminal {
+    pub fn verif_state(&self) -> VerifState {
+        VerifState {
+            alternate_active: self.active_buffer_type == BufferType::Alternate,
+            pen: self.pen,
+            charsets_drawing: [
+                self.charsets[0] == Charset::Drawing,
+                self.charsets[1] == Charset::Drawing,
+            ],
+            active_charset: self.active_charset,
+            tabs: (&self.tabs).into_iter().copied().collect(),
+            insert_mode: self.insert_mode,
+            origin_mode: self.origin_mode,
+            auto_wrap_mode: self.auto_wrap_mode,
+            new_line_mode: self.new_line_mode,
+            pending_wrap: self.pending_wrap,
+            top_margin: self.top_margin,
+            bottom_margin: self.bottom_margin,
+            saved_ctx: ctx(&self.saved_ctx),
+            other_saved_ctx: ctx(&self.alternate_saved_ctx),
+        }
+    }
+}
